@@ -33,3 +33,19 @@ package planner
 //@   ensures positive_multiple: result4 == nil ==> result0 >= source.GetResolution() && result0 % source.GetResolution() == 0
 //@   ensures changed_flag: result4 == nil ==> result2 == (result0 != source.GetResolution())
 //@   ensures stride_multiple: result4 == nil && query.Stride > 0 ==> query.Stride % source.GetResolution() == 0
+
+// C16: the textual rewrite of a non-pushdown cluster query slices the client's SQL text at offsets found in a
+// lower-cased copy. The copy must have the same length (lowerASCII), and every offset used must lie inside the string
+// it is applied to - whatever the client sent - so that malformed or unusual SQL ends in an error, not in a crash of
+// the leader.
+//@ func lowerASCII
+//@   modifies nothing
+//@   ensures same_length: len(result) == len(s)
+//@   loop 0 modifies b[0:len(b)]
+//@   loop 0 invariant shape: len(b) == len(s) && fresh(b) && obj(b) != 0
+//@   nopanic
+
+//@ func planClusterNonPushdown
+//@   requires query != nil && opts != nil
+//@   modifies *
+//@   nopanic own
